@@ -84,6 +84,8 @@ class CUSUM(StreamingDetector):
 
         X, _, _ = super()._validate_input(X, None, None)
         if len(X.shape) > 1 and X.shape[1] != 1:
+            # only this refused input can have set these: forget them again
+            self._input_cols, self._input_col_dim = None, None
             raise ValueError("CUSUM should only be used to monitor 1 variable.")
         super().update(X, None, None)
         self._stream.append(X)
